@@ -110,7 +110,13 @@ def compute_interpolation_weights(inputs, keypoints, lengths):
     Interpolation weights tensor of shape: `(batch_size, num_keypoints)` or
     `(batch_size, units, num_keypoints)`.
   """
-  weights = (inputs - keypoints) / lengths
+  # A piece of zero length (a learned keypoint whose softmax share underflowed)
+  # is a jump: dividing by it would give NaN for an input exactly on it.
+  nonzero = lengths > 0
+  weights = tf.where(
+      nonzero,
+      (inputs - keypoints) / tf.where(nonzero, lengths, tf.ones_like(lengths)),
+      tf.cast(inputs > keypoints, inputs.dtype))
   weights = tf.minimum(weights, 1.0)
   weights = tf.maximum(weights, 0.0)
   # Prepend 1.0 at the beginning to add bias unconditionally. Worth testing
